@@ -354,6 +354,60 @@ func C20Case(r *Runner, base string, tape *sim.Tape) *Outcome {
 			}
 		}
 	}
+	// Second enumeration (a quarter of the in-place scenarios; all of them in the thorough
+	// tier): one write to a file fails (ENOSPC) so that the command's restore path runs, and
+	// the process is killed at every boundary of THAT run: the backup must stay safe while it
+	// is being put back.
+	if sawRename && (os.Getenv("VERIF_TIER") == "thorough" || tape.Draw(4) == 0) {
+		inj := []*Inject{{Kind: "write", PathRe: "^[^<]", Nth: 0, Times: -1, Errno: 28}}
+		if err := fresh(); err != nil {
+			out.Infra = "materialise: " + err.Error()
+			return out
+		}
+		p := plan()
+		p.Inject = inj
+		ef, err := r.Run(work, c.Inv, p)
+		if err != nil {
+			out.Infra = err.Error()
+			return out
+		}
+		if ef.Res != nil && ef.Res.Fired["write:no space left on device"] > 0 {
+			out.stat("scenarios_with_failing_write_enumerated", 1)
+			K2 := len(ef.Trace)
+			for k := 1; k <= K2; k++ {
+				if !Mutating(ef.Trace[k-1].Kind) && ef.Trace[k-1].Err == "" {
+					continue
+				}
+				if err := fresh(); err != nil {
+					out.Infra = "materialise: " + err.Error()
+					return out
+				}
+				p := plan()
+				p.Inject = inj
+				at := "write-fails,after-" + ef.Trace[k-1].Kind
+				if k < K2 {
+					p.CrashAt = k
+				} else {
+					at = "write-fails,end"
+				}
+				co, err := r.Run(work, c.Inv, p)
+				if err != nil {
+					out.Infra = err.Error()
+					return out
+				}
+				images++
+				out.stat("fault_sigkill_during_restore_path", 1)
+				if v := judgeCrashImage(c, ex, root, at); v != nil {
+					v.Detail += fmt.Sprintf(" [every write fails with ENOSPC; killed before operation %d of %d; last operations: %s; args=%v; tree=%s]", k, K2, lastOps(ef.Trace, k, 6), c.Inv.Args(), DescribeTree(c.Tree))
+					out.V = v
+					return out
+				} else if k < K2 && !co.Killed {
+					out.Infra = fmt.Sprintf("restore-path crash point %d of %d was not reached (schedule not reproduced)", k, K2)
+					return out
+				}
+			}
+		}
+	}
 	out.Evals = images + 1
 	out.Nontrivial = images
 	out.Key = uint64(ff.Res.SchedHash)
